@@ -122,6 +122,19 @@ pub fn g3() -> Vec<FamGrammar> {
         let alphabet = vec![("a".to_string(), "identifier".to_string()), ("b".to_string(), "identifier".to_string()), ("1".to_string(), "number".to_string()), lit("*"), lit(";")];
         out.push(FamGrammar { id: g.name.clone(), g, alphabet, has_ws_extras: true, kind: "G3", op_table: None });
     }
+    // two alternatives of ONE rule that differ only in their dynamic precedence (same length, same shape): the parse items
+    // of the two productions must stay distinct
+    for (vi, (dv, dt)) in [(0, 1), (1, 0), (-1, 0), (0, -1)].iter().enumerate() {
+        let g = G::new(&format!("g3_alt_{}", vi))
+            .conflict(&["as_value", "as_type"])
+            .rule("program", rep(sym("statement")))
+            .rule("statement", choice(vec![prec_dyn(*dv, seq(vec![sym("as_value"), s(";")])), prec_dyn(*dt, seq(vec![sym("as_type"), s(";")]))]))
+            .rule("as_value", sym("identifier"))
+            .rule("as_type", sym("identifier"))
+            .rule("identifier", pat("[a-z]+"));
+        let alphabet = vec![("a".to_string(), "identifier".to_string()), ("b".to_string(), "identifier".to_string()), lit(";")];
+        out.push(FamGrammar { id: g.name.clone(), g, alphabet, has_ws_extras: true, kind: "G3", op_table: None });
+    }
     // ambiguous-looking call vs parenthesised declarator, resolved by dynamic precedence
     for (vi, dp) in [1, -1].iter().enumerate() {
         let g = G::new(&format!("g3_call_{}", vi))
